@@ -36,7 +36,7 @@ CHECKS = {
 
 CHECKS.update({
  'C04': dict(engine='handle+seq', cat='model_checking', tech='exhaustive write/seek/flush session scripts against Cursor<Vec<u8>> + explicit-state BFS of session sequences + boundary lengths x buffer sizes',
-   text='(a) every script of d write/seek/flush steps on create and append handles of every backend (overlay copy-up included), a fresh reader after every flush and after drop, against std::io::Cursor; (b) BFS to fixpoint of all create/append/copy/move/remove session sequences over two paths against the byte model; (c) boundary lengths (0..65537) x read buffer sizes and read strategies (read_to_end, read_exact, BufReader) through write, copy_file, move_file, append and overwrite; after a copy, later sessions on the original must not reach the copy and vice versa.',
+   text='(a) every script of d write/seek/flush steps on create and append handles of every backend (overlay copy-up included), a fresh reader right after the open, after every flush and after drop, against std::io::Cursor; (b) BFS to fixpoint of all create/append/copy/move/remove session sequences over two paths against the byte model; (c) boundary lengths (0..65537) x read buffer sizes and read strategies (read_to_end, read_exact, BufReader) through write, copy_file, move_file, append and overwrite; after a copy, later sessions on the original must not reach the copy and vice versa.',
    note='script depth d (quick 4 / 3 on physical, thorough 5); fixed non-UTF-8 byte pattern; a zero-length write past the end is not compared (Cursor<Vec> and POSIX differ, the contract is silent)', ref='3/C04'),
  'C06': dict(engine='path', cat='model_checking', tech='exhaustive enumeration of all argument strings up to a length bound + BFS over path values against a lexical-resolution reference',
    text='Every string over {/ . a b e-acute} up to length L joined onto 6 bases for VfsPath and AsyncVfsPath, associativity for all pairs of short strings, BFS over path values with join/parent/root; equality matrix over 17 ways of producing three paths on two filesystem instances; result, canonical form, parent/filename/extension/is_root/equality compared with a reference resolver.',
@@ -48,22 +48,22 @@ CHECKS.update({
    text='No panic in: BFS with the unrestricted alphabet including removal of the root and the states after it and type-inconsistent overlay layerings; read/write/seek scripts at every offset; a read and a write handle on one file opened, used, dropped and re-opened in every order while the file or its parent is removed or replaced (sync and async); every call on / next to / below hostile on-disk entries; every operation on every path of the embedded fixtures; all join strings up to the bound. OverlayFS::new(&[]) is asserted to panic.',
    note='copy_dir/move_dir into the own subtree excluded (documented); the async port has its own sweep: unrestricted product BFS, reader scripts incl. offsets next to u64::MAX / i64::MIN, poll plans, all under catch_unwind', ref='3/C13'),
  'C14': dict(engine='handle', cat='model_checking', tech='exhaustive read/seek and write/seek/flush scripts on handles of every backend, call by call against std::io::Cursor',
-   text='Every script of d steps over 16 reader steps (reads of 0/1/2/5 bytes, seeks from Start/Current/End before the start, inside, at and past the end) on files of 0, 1 and 4 bytes from Mem, Phys, Alt, Overlay (upper and lower) and Embedded, and every script over 13 writer steps on create and append handles, compared call by call (return values, bytes, positions, published bytes) with std::io::Cursor.',
+   text='Every script of d steps over 16 reader steps (reads of 0/1/2/5 bytes, seeks from Start/Current/End before the start, inside, at and past the end) on files of 0, 1 and 4 bytes from Mem, Phys, Alt, Overlay (upper, lower-only, and middle layer shadowing a bottom copy) and Embedded, and every script over 13 writer steps on create and append handles, compared call by call (return values, bytes, positions, published bytes) with std::io::Cursor.',
    note='d = 4 (quick) / 5 (thorough, memory based); seeking on append handles compared on memory based stacks only', ref='3/C14'),
  'C15': dict(engine='async', cat='model_checking', tech='product explicit-state BFS sync vs async + exhaustive enumeration of poll schedules (<=2 injected Pendings) with an own executor',
-   text='Sync and async stacks of the same configuration are explored in lock-step (outcome classes, error kinds, observable trees); async read handles run all read/seek scripts against Cursor; for walks and the composites built on them every plan with 1 and 2 injected Pendings at the await points the wrapper owns (every AsyncFileSystem method entry, every read_dir stream item, at every level of the stack) must give the plan-free result, which must equal the sync twin.',
+   text='Sync and async stacks of the same configuration are explored in lock-step (outcome classes, error kinds, observable trees); async read handles run all read/seek scripts against Cursor; for walks and the composites built on them every plan with 1 and 2 injected Pendings at the await points the wrapper owns (every AsyncFileSystem method entry, every read_dir stream item, at every level of the stack) must give the plan-free result, which must equal the sync twin; reader+writer scripts with removals end in the same tree in both worlds (memory based stacks); symlinks of four kinds x 13 calls x 2 targets give the same outcome classes on PhysicalFS and AsyncPhysicalFS.',
    note='AsyncPhysicalFS in lock-step only; <=2 (thorough: 3 on the largest trees) injected Pendings; alphabet bound', ref='3/C15'),
  'C16': dict(engine='sched', cat='model_checking', tech='stateless exhaustive schedule enumeration (cooperative scheduler at lock-acquisition yield points, visited-state pruning) + brute-force linearizability check against sequential runs of the real code',
    text='For every small program (2 threads x 1 call/session over the full alphabet on overlapping paths x 4 initial states, all (2,1)-call programs of mutators on two paths, and the same at the FileSystem trait level; thorough: 3 threads, 2 calls per thread) all interleavings at MemoryFS lock granularity are executed on the real code; per-thread results and final raw state of every schedule must equal those of some program-order-respecting sequential execution on a fresh MemoryFS; no panic, no deadlock (watchdog), and the final tree of every schedule is well-formed.',
    note='scheduling points = the verif-hooks yield points before each lock acquisition (exact for a single-lock safe-Rust structure); no preemption bound in quick; error kinds are compared in the FileSystem-trait-level program class (one critical section per call), not at the path level (a VfsPath call is several filesystem calls)', ref='3/C16'),
  'C17': dict(engine='sched', cat='model_checking', tech='stateless exhaustive schedule enumeration of k concurrent create_dir_all calls on all path multisets',
-   text='k = 2,3 (thorough 4) threads each calling create_dir_all on every multiset of 7 paths sharing prefixes of every length, on MemoryFS, AltrootFS, OverlayFS (empty and with the shared prefix only in the lower layer) at lock granularity and on PhysicalFS at create_dir call granularity: also with the shared prefix removed through the filesystem before the race starts (overlay deletion markers in place): every call returns Ok and every prefix is a directory under every interleaving.',
+   text='k = 2,3 (thorough 4) threads each calling create_dir_all on every multiset of 7 paths sharing prefixes of every length, on MemoryFS, AltrootFS, OverlayFS (empty and with the shared prefix only in the lower layer), three-level stackings (Alt(Ov), Ov[Alt,Mem], Alt(Alt)) at lock granularity and on PhysicalFS at create_dir call granularity: also with the shared prefix removed through the filesystem before the race starts (overlay deletion markers in place): every call returns Ok and every prefix is a directory under every interleaving.',
    note='PhysicalFS: mkdir(2) atomic, nobody else touches the scratch directory; classes with a preemption bound are labelled in the evidence', ref='3/C17'),
  'C18': dict(engine='embed', cat='model_checking', tech='exhaustive enumeration of every public operation on every path of a derived finite path set of an immutable (single-state) filesystem, PhysicalFS on the same folder as oracle',
    text='EmbeddedFS is immutable, so one state per fixture and depth-1 closure is all histories: every observer, read_to_string, walk_dir, reader scripts and every mutator (incl. transfers into / out of / inside it) on every path of the path set (files, implied directories, root, absent siblings, prefixes/extensions of names, paths below files) of two fixtures, compared with PhysicalFS on the same folder; mutators are refused (not-supported when their ordinary preconditions hold) and change nothing.',
    note='two fixture folders; release build (rust-embed embeds at compile time)', ref='3/C18'),
  'C19': dict(engine='time', cat='model_checking', tech='exhaustive enumeration of boundary time values x setter orders x entry kinds x configurations x follow-up operations against a field-wise model',
-   text='8 boundary time values (epoch, sub-second, pre-epoch, far future) x every single setter and all 6 orders of the three setters x file/directory x Mem, Phys, Alt, Overlay (entry in the upper layer, lower-only, and in upper and lower layers at once) x follow-up {nothing, read, append, overwrite, copy, setters while an append handle is open}: an accepted setter sets exactly its field and nothing else, a refused one changes nothing, append on MemoryFS preserves created, adapters report the timestamps of the serving entry.',
+   text='8 boundary time values (epoch, sub-second, pre-epoch, far future) x every single setter and all 6 orders of the three setters x file/directory x Mem, Phys, Alt, Overlay over memory and over physical layers (entry in the upper layer, lower-only, and in upper and lower layers at once) x follow-up {nothing, read, append, overwrite, copy, setters while an append handle is open}: an accepted setter sets exactly its field and nothing else, a refused one changes nothing, append on MemoryFS preserves created, adapters report the timestamps of the serving entry.',
    note='PhysicalFS on tmpfs; metadata read immediately before/after each setter', ref='3/C19'),
  'C20': dict(engine='fault', cat='fault_enumeration', tech='for every reachable state x every call: fail each single underlying call position k = 1..n (thorough: all pairs) via a fault-injecting FileSystem wrapper',
    text='For every state of a BFS over the fault-free transitions and every call incl. observers, walk_dir and read_to_string: one fault-free run counts the n calls made into the wrapped filesystems of the stack (trait methods and every read/write/seek/flush on returned handles), then the call is re-run from the same state once per position k with exactly that call failing; the result must be Err (or an Err item), or Ok with the complete fault-free effect and answer; never a panic, never a mutating call on a lower layer.',
